@@ -98,8 +98,8 @@ class DeriveGrid1D:
         """
         from autoarray.structures.grids.uniform_1d import Grid1D
 
-        grid_slim = grid_1d_util.grid_1d_slim_via_mask_from(
-            mask_1d=self.mask,
+        grid_slim = grid_1d_util.grid_1d_slim_via_shape_slim_from(
+            shape_slim=self.mask.shape,
             pixel_scales=self.mask.pixel_scales,
             origin=self.mask.origin,
         )
